@@ -2,6 +2,7 @@
 from ..gen import cells as G
 from ..gen import maps as M
 from ..translate import labelfns as tr
+from ..translate import hashmapsrc as hmsrc
 from . import C09
 
 SPEC = dict(
@@ -18,15 +19,22 @@ SPEC = dict(
              'enforced) deserialize_hml returns the bit pattern of a label constructor iff the label is not longer than the remaining key - the '
              'accepted patterns are exactly the spec encodings (c10_label_accepted_iff) - so a cell whose label announces more bits than remain '
              'makes every parser entry point raise, at the root, below forks, and a parse that returns has met only fitting labels at every '
-             'depth (c10_label_too_long_rejected, c10_label_too_long_below_fork, c10_parse_labels_fit); a negative key length is refused.',
+             'depth (c10_label_too_long_rejected, c10_label_too_long_below_fork, c10_parse_labels_fit); a negative key length is refused. '
+             'SOURCE TIE: every function of parse.py and utils.py is regenerated as a Lean function on every run (Generated/HashmapSrc.lean, translator pyrec.py) and validated '
+             'against the running library; Lean proves FOR ALL INPUTS (every slice, int key length, dict, prefix, decoder pair; every recursion fuel >= 2*key_length+2) that the regenerated '
+             'deserialize_unary / deserialize_hml / parse / deserialize_hashmap_node / parse_aug / deserialize_hashmap_aug_node / parse_hashmap equal the hand model '
+             '(c10_src_label_reader, c10_src_parse, c10_src_parse_hashmap, c10_src_parse_aug), so c10_parse_any*, c10_label_accepted_iff and the over-long-label refusal hold of the code as '
+             'written (c10_src_parse_any, c10_src_parse_any_aug, c10_src_label_accepted_iff, c10_src_label_too_long_rejected). The serialiser (build_tree .. serialize_dict) is regenerated and validated, '
+             'and compared with the model by Lean evaluation on samples, but its equality with the model is NOT proved: c10_canonical rests on the hand model + correspondence.',
         level_note='Trusted: Lean kernel (propext, Classical.choice, Quot.sound); Spec/Hashmap.lean as the transcription of hashmap.tlb and of '
                    'append_dict_label; Model/Hashmap.lean as a hand transcription of utils.py/parse.py (tied by sampled differential correspondence: '
-                   'every (len,max,same) with max<=40 (<=64 thorough), tie-break boundaries for max up to 1023, random valid non-canonical trees '
+                   'for the serialiser and the HashMap/Slice glue; parser side: regenerated from parse.py and proved equal, trusting pyrec.py, the declared interface in hashmapsrc.py and PyHm.lean as the reading of Slice/Builder/dict, validated against the library on 2.4k inputs per change; every (len,max,same) with max<=40 (<=64 thorough), tie-break boundaries for max up to 1023, random valid non-canonical trees '
                    'with Merkle prunings through 8 parser entry points; over-long labels of every constructor at depth 0-4 must raise); the 200-line Python->Lean translator for the label functions; '
                    'that the hash equals the on-chain one rests on c10_canonical + c10_unique + Spec/Hashmap.lean being the reference format, on C01 (cell hash), and is cross-checked on samples against an independent Python transcription of dict.cpp.',
-        technique='Lean 4 proof (label functions translated from source, hand model for tree/parse) + differential correspondence + independent reference serialiser',
+        technique='Lean 4 proof (label functions, label reader and parse recursion regenerated from source and proved equal to the model; hand model for tree building / writing) + differential correspondence + independent reference serialiser',
     ),
-    translators=[('hashmap/utils.py->Generated/LabelFns.lean', tr.regenerate)],
+    translators=[('hashmap/utils.py->Generated/LabelFns.lean', tr.regenerate),
+                 ('hashmap/parse.py+utils.py->Generated/HashmapSrc.lean', hmsrc.regenerate)],
     design_ref='DESIGN.md §6 C10',
     rule='(a) maps whose root label realises a given (len, max, constant?, bit): hash of HashMap.serialize() vs an independent transcription of the '
          'reference serialiser, all triples with max<=40/64 and boundary lens for every max<=1023 (sampled in quick); (b) spec-valid trees built by an '
@@ -36,7 +44,7 @@ SPEC = dict(
          'well-formed forks, key lengths 1..256, plain and augmented: all 7 entry points must raise and the model must answer err; '
          'distinct = distinct (tree, constructors, prunings); non-trivial = at least one leaf',
     trusted_base=['Spec/Hashmap.lean transcribes hashmap.tlb + dict.cpp label choice', 'Model/Hashmap.lean mirrors utils.py/parse.py by hand',
-                  'harness/translate/labelfns.py', 'harness/gen/maps.py: independent reference serialiser and tree encoder'],
+                  'harness/translate/labelfns.py', 'harness/translate/pyrec.py + hashmapsrc.py (declared interface) + lean/TonVerif/PyHm.lean', 'harness/gen/maps.py: independent reference serialiser and tree encoder'],
     assumptions=['correspondence is sampled differential testing', 'pruned branches are level-1 prunings inside one Merkle proof'],
 )
 
@@ -451,7 +459,42 @@ def overlong_cases(ctx):
                         overlong_case(ctx, n, kind, length, path, ybits, rng.getrandbits(32), f'overlong{t}')
 
 
+def src_search(ctx):
+    """Search mode only (a `c10_src_*` obligation or the tie broke): Lean evaluates the regenerated parser / serialiser
+    (Generated/HashmapSrc.lean) against the hand model on the translator's validation inputs; the differing points are judged by
+    property-level oracles first: a label point by the independent transcription of hashmap.tlb `HmLabel` (`hmsrc.ref_hml`: the
+    library's `deserialize_hml` must return exactly the spec's (n, s, rest) and raise on everything else), a serialiser point by the
+    reference serialiser (`canon_case`).  True = a concrete failing input was found."""
+    found = hmsrc.diff_points(ctx)
+    n0 = len(ctx.failures)
+    from pytoniq_core.boc.hashmap.parse import deserialize_hml
+    for bits, m in found['hml'][:40]:
+        inp = {'kind': 'hml', 'bits': bits, 'm': m}
+        want = hmsrc.ref_hml(bits, m)
+
+        def f():
+            sl = hmsrc._py_slice((-1, bits, ()))
+            n, s = deserialize_hml(sl, m)
+            return n, s.to01(), sl.bits.to01()
+        got = call(f)
+        ctx.case(('src-hml', bits, m), sample=inp)
+        if want is None and not is_err(got):
+            ctx.fail('label-reader:accepted', 'deserialize_hml returned on bits that are no HmLabel under this bound (hashmap.tlb)', inp, got, 'raises')
+        elif want is not None and (is_err(got) or tuple(got) != tuple(want)):
+            ctx.fail('label-reader:wrong', 'deserialize_hml does not return the label hashmap.tlb denotes', inp, got, want)
+    for n, items in found['ser'][:20]:
+        if len({v for _, v in items}) == 1 and all(0 <= k < (1 << n) for k, _ in items):
+            canon_case(ctx, n, [k for k, _ in items], items[0][1], 'src-ser')
+        else:
+            for k, v in items:
+                canon_case(ctx, n, [k2 for k2, _ in items], v, 'src-ser')
+                break
+    return len(ctx.failures) > n0
+
+
 def run(ctx):
+    if ctx.search and src_search(ctx):
+        return
     label_cases(ctx)
     tree_cases(ctx)
     overlong_cases(ctx)
@@ -463,6 +506,21 @@ def replay(ctx, payload):
         canon_case(ctx, inp['n'], [int(k) for k in inp['keys']], inp['vbits'], inp.get('tag', 'replay'))
     elif inp.get('kind') == 'tree':
         replay_tree(ctx, inp)
+    elif inp.get('kind') == 'hml':
+        from pytoniq_core.boc.hashmap.parse import deserialize_hml
+        bits, m = inp['bits'], inp['m']
+        want = hmsrc.ref_hml(bits, m)
+
+        def f():
+            sl = hmsrc._py_slice((-1, bits, ()))
+            n, s = deserialize_hml(sl, m)
+            return n, s.to01(), sl.bits.to01()
+        got = call(f)
+        ctx.case(('src-hml', bits, m), sample=inp)
+        if want is None and not is_err(got):
+            ctx.fail('label-reader:accepted', 'deserialize_hml returned on bits that are no HmLabel under this bound (hashmap.tlb)', inp, got, 'raises')
+        elif want is not None and (is_err(got) or tuple(got) != tuple(want)):
+            ctx.fail('label-reader:wrong', 'deserialize_hml does not return the label hashmap.tlb denotes', inp, got, want)
     elif inp.get('kind') == 'overlong':
         overlong_case(ctx, inp['n'], inp['ctor'], inp['length'], [tuple(p) for p in inp['path']], inp['ybits'], inp['seed_bits'], inp.get('tag', 'replay'))
 
